@@ -77,9 +77,19 @@ def run_cases(ctx, E, N, replay_case=None):
     else:
         core.write_ndjson(cases_file, [replay_case])
     lines = []
-    for inst in ("int", "string"):
+    # a third instantiation, ints that are FAR APART (elements 0..5 become multiples of 2^61: their differences overflow int64), for the
+    # calls that only move or compare elements (no arithmetic on them)
+    xops = ("Sort", "SortBy", "Distinct", "Take", "Skip", "Tail", "PopLast", "Append", "Concat", "Last", "Head", "Item", "Length", "Forall", "Forany", "Filter")       # (not TryFind: its not-found result is the zero value, which is an element here)
+    xfile = os.path.join(sd, "slice_cases_xint.ndjson")
+    with open(xfile, "w") as fx:
+        for ln in open(cases_file):
+            c = json.loads(ln)
+            vals = list(c.get("s", [])) + list(c.get("s2", [])) + [v for q in c.get("ss", []) for v in q]
+            if c["op"] in xops and all(0 <= v <= 5 for v in vals):
+                fx.write(ln)
+    for inst in ("int", "string", "xint"):
         outp = os.path.join(sd, "slice_out_%s.ndjson" % inst)
-        rc, so, se = core.sh([drv, "cases", cases_file, outp, inst], timeout=1800)
+        rc, so, se = core.sh([drv, "cases", xfile if inst == "xint" else cases_file, outp, inst], timeout=1800)
         if rc != 0:
             raise Infra("drv_slice failed: %s %s" % (so[-1000:], se[-2000:]))
         lines += core.read_ndjson(outp)
